@@ -84,7 +84,8 @@ class C03(Scenario):
         crit = specmod.critical_values(sp, regime)
         d = rng.fork("data")
         n = d.randint(0, 150 if (big and d.chance(0.2)) else 30)
-        recs = [specmod.gen_record(d, crit, {"no_none": True, "p_crit": 0.6}) for _ in range(n)]
+        missing_cats = d.chance(0.3)  # a category column with None / NaN in it (an object column)
+        recs = [specmod.gen_record(d, crit, {"no_none": not missing_cats, "p_crit": 0.6}) for _ in range(n)]
         if regime == "awkward":
             for r in recs:
                 if d.chance(0.03):
